@@ -140,6 +140,17 @@ class InitStreamAndLinalgMemorySpace(RewritePattern):
         if not operands_to_memory_cast:
             return
 
+        def dominates(cast: Operation) -> bool:
+            # the cast can only be reused if it is visible at `op`: it sits in a block that encloses `op`,
+            # in front of the operation of that block that holds `op`
+            block = cast.parent_block()
+            anchor: Operation | None = op
+            while anchor is not None and anchor.parent_block() is not block:
+                anchor = anchor.parent_op()
+            if anchor is None or block is None:
+                return False
+            return block.get_operation_index(cast) < block.get_operation_index(anchor)
+
         def get_cast_op(operand: SSAValue) -> memref.MemorySpaceCastOp:
             # cast required: find previous cast or create new one
             cast_op = None
@@ -148,6 +159,7 @@ class InitStreamAndLinalgMemorySpace(RewritePattern):
                     isinstance(use.operation, memref.MemorySpaceCastOp)
                     and isinstance(use_type := use.operation.dest.type, builtin.MemRefType)
                     and use_type.memory_space == L1.attribute
+                    and dominates(use.operation)
                 ):
                     cast_op = use.operation
                     break
